@@ -209,6 +209,61 @@ for a in pool.bc_only:
     add(2, ((1, a),), wkind=1, wvals=[1.798], tag="b_c-without-element-density-direct")
     stats["bc_without_density"] += 1
 
+# ---------------------------------------------------------------- D. Formula objects that carry their own density
+stats["formula_objects"] = 0
+stats["formula_objects_keyword_differs"] = 0
+for i in range(150 if not thorough else 3000):
+    fobj, how = formula_object(rng, pool)
+    own = fobj.density
+    k = rng.random()
+    dens = natd = None
+    if k < 0.4:
+        dens = pool.density()
+    elif k < 0.7:
+        natd = pool.density()
+    call = rng.choice([0, 0, 1, 4]) if (dens is None and natd is None) else rng.choice([0, 0, 1])
+    atoms_f = flat_atoms(fobj.structure)
+    m = rng.random()
+    vector = m > 0.8
+    wkind = 0 if m < 0.15 else (2 if (m < 0.4 and call != 4) else 1)
+    wv = [] if wkind == 0 else [pool.wavelength(atoms_f) if wkind == 1 else EF_DOC / pool.wavelength(atoms_f) ** 2
+                                for _ in range(rng.randint(1, 3) if vector else 1)]
+    if wkind == 0:
+        vector = False
+    res = run_call_formula(call, fobj, dens, natd, wkind, vector, wv)
+    kwtxt = "".join([", density=%r" % dens if dens is not None else "", ", natural_density=%r" % natd if natd is not None else "",
+                     "" if not wkind else ", %s=%r" % ("wavelength" if wkind == 1 else "energy", wv if vector else wv[0])])
+    txt = ("%s.neutron_sld(%s)" % (how, kwtxt[2:])) if call == 4 else \
+        "%s(%s%s)  [own density %r]" % ("neutron_scattering" if call == 0 else "neutron_sld", how, kwtxt, own)
+    cases.append(callf_term(call, fobj, dens, natd, wkind, vector, wv, res))
+    meta.append(dict(call=txt, tag="formula-object"))
+    stats["formula_objects"] += 1
+    for a in atoms_f:
+        seen_atoms.add(atom_key(base_of(a)))
+    # the documented result uses the keyword when one is given
+    rho = documented_density(fobj, dens, natd)
+    if rho is not None and own is not None and abs(rho - own) > 1e-9 * own:
+        stats["formula_objects_keyword_differs"] += 1
+    if isinstance(res, BaseException) or rho is None:
+        if not (rho is None and (isinstance(res, AssertionError) or (call == 4 and res == (None, None, None)))):
+            fail("C03:formula-object:raises", "%s gave %r" % (txt, res), call=txt)
+        continue
+    lams = [ABSW] if not wkind else [float(x) if wkind == 1 else math.sqrt(EF_DOC / float(x)) for x in wv]
+    flat = flatten_result(res, vector, len(lams)) if isinstance(res, tuple) and res[0] is not None else None
+    if flat is None:
+        fail("C03:formula-object:shape", "%s returned %r" % (txt, res), call=txt)
+        continue
+    atoms_c = count_struct(fobj.structure)
+    for q, lam in enumerate(lams):
+        vals, scales = doc_equations(atoms_c, rho, lam)
+        obs = [f[q] for f in flat]
+        for j in compare_doc(obs, vals, scales):
+            fail("C03:formula-object-density:" + NAMES[j],
+                 "%s: %s = %r; the documented equations at the density of the call (%r: %s) give %r"
+                 % (txt, NAMES[j], obs[j], rho, "density= keyword" if dens is not None else
+                    ("natural_density= keyword" if natd is not None else "the formula's own density"), vals[j]),
+                 call=txt, output=NAMES[j], observed=obs[j], expected=vals[j])
+
 missing = [k for k in (atom_key(a) for a in pool.with_sld) if k not in seen_atoms]
 json.dump(dict(cases=cases, meta=meta, direct_fails=fails, stats=stats, n_with_sld=len(pool.with_sld),
                n_none=len(pool.none), n_bc_only=len(pool.bc_only), atoms_not_covered=missing,
